@@ -444,65 +444,72 @@ func (ex *Exec) schemaDecodeStruct(dst Ptr, t types.Type, form *MapV) bool {
 }
 
 func (ex *Exec) schemaSet(fp Ptr, ft types.Type, vals SliceV) bool {
-	v0 := vals.get(0).(*Term)
-	// pointer fields: allocate when a non-empty value is present
+	// zitadel/schema decoder.decode: pointers are allocated as soon as the key is present
 	if pt, isP := ft.Underlying().(*types.Pointer); isP {
-		if ex.Branch(Eq(v0, StrLit(""))) {
-			return true
+		cur, _ := (*fp.slot()).(Ptr)
+		if cur.Obj == nil {
+			cur = Ptr{Obj: ex.newObj(zeroValue(pt.Elem()), pt.Elem())}
+			*fp.slot() = cur
 		}
-		o := ex.newObj(zeroValue(pt.Elem()), pt.Elem())
-		if !ex.schemaSet(Ptr{Obj: o}, pt.Elem(), vals) {
-			return false
-		}
-		*fp.slot() = Ptr{Obj: o}
-		return true
+		return ex.schemaSet(cur, pt.Elem(), vals)
+	}
+	val := StrLit("")
+	if vals.Len > 0 {
+		val = vals.get(vals.Len - 1).(*Term) // the last value provided
 	}
 	if fn, ok := ex.textUnmarshaler(ft); ok {
-		// gorilla/schema leaves the field untouched for an empty value
-		if ex.Branch(Eq(v0, StrLit(""))) {
-			return true
-		}
-		r := ex.callFunction(fn, []Value{fp, BytesV{T: v0}}, nil)
+		// UnmarshalText is applied to whatever was sent, the empty string included
+		r := ex.callFunction(fn, []Value{fp, BytesV{T: val}}, nil)
 		if e, ok := r.(Iface); ok && e.T != nil {
 			return false
 		}
 		return true
 	}
 	switch u := ft.Underlying().(type) {
+	case *types.Slice:
+		// element-wise conversion; empty values are dropped
+		if eb, ok := u.Elem().Underlying().(*types.Basic); ok && eb.Info()&types.IsString != 0 {
+			var ts []*Term
+			for k := 0; k < vals.Len; k++ {
+				v := vals.get(k).(*Term)
+				if ex.Branch(Eq(v, StrLit(""))) {
+					continue
+				}
+				ts = append(ts, v)
+			}
+			sl := ex.strSlice(ts)
+			*fp.slot() = sl
+			return true
+		}
 	case *types.Basic:
+		if u.Info()&types.IsString != 0 {
+			// an empty value leaves the field as it is; for a field that still holds "" that is the same as assigning it
+			if cur, ok := (*fp.slot()).(*Term); ok && cur.IsLit() && cur.S == "" {
+				*fp.slot() = val
+				return true
+			}
+		}
+		if ex.Branch(Eq(val, StrLit(""))) {
+			return true
+		}
 		switch {
 		case u.Info()&types.IsString != 0:
-			*fp.slot() = v0
+			*fp.slot() = val
 			return true
 		case u.Info()&types.IsBoolean != 0:
-			if ex.Branch(Eq(v0, StrLit(""))) {
-				return true
-			}
-			if !ex.Branch(UF("parsebool.ok", SBool, v0)) {
+			if !ex.Branch(UF("parsebool.ok", SBool, val)) {
 				return false
 			}
-			*fp.slot() = UF("parsebool", SBool, v0)
+			*fp.slot() = UF("parsebool", SBool, val)
 			return true
 		case u.Info()&types.IsInteger != 0:
-			if ex.Branch(Eq(v0, StrLit(""))) {
-				return true
-			}
-			if !ex.Branch(UF("atoi.ok", SBool, v0, StrLit(u.Name()))) {
+			if !ex.Branch(UF("atoi.ok", SBool, val, StrLit(u.Name()))) {
 				return false
 			}
-			n := UF("atoi", SInt, v0)
+			n := UF("atoi", SInt, val)
 			lo, hi, _ := intRange(ft)
 			ex.assume(And(Ge(n, BigLit(lo)), Le(n, BigLit(hi))))
 			*fp.slot() = n
-			return true
-		}
-	case *types.Slice:
-		if eb, ok := u.Elem().Underlying().(*types.Basic); ok && eb.Info()&types.IsString != 0 {
-			ts := make([]*Term, vals.Len)
-			for k := 0; k < vals.Len; k++ {
-				ts[k] = vals.get(k).(*Term)
-			}
-			*fp.slot() = ex.strSlice(ts)
 			return true
 		}
 	}
